@@ -2,6 +2,8 @@
 //! panic capture, violation bookkeeping against `known_findings.json`, replay files and evidence.
 
 pub mod io;
+pub mod resmon;
+pub mod worker;
 
 use std::{
     cell::RefCell,
